@@ -62,8 +62,12 @@ package mqttproxy
 //   * requests are not started on a filter generation while/after its
 //     successor inherits from it (that is property C11's business).
 //   * "unchanged rule" = same methods, same url pattern, same policyRef text
-//     and a policy of that name with identical fields; renamed policies,
-//     changed defaultPolicyRef and duplicate rules are not generated.
+//     and the same effective policy (name and fields). A rule without its own
+//     policyRef whose spec switches defaultPolicyRef to another policy is a
+//     CHANGED rule (fresh limiter with the new policy's numbers, periods
+//     counted from its creation in the new generation); rules with their own
+//     policyRef are unaffected by such a switch. Renamed policies and
+//     duplicate rules are not generated.
 //   * overlapping rules: the first matching rule in spec order limits the
 //     request (anchor "first matching URL rule").
 //   * mqtt bytes: "exceed bytesRate by less than one packet" is read with the
@@ -213,9 +217,14 @@ var c09RuleMenu = []c09Rule{
 	{Kind: "prefix", Pat: "/b"}, {Kind: "exact", Pat: "/a/b"}, {Kind: "exact", Pat: "/b/x"}, {Kind: "prefix", Pat: "/"},
 }
 
-func c09GenSpec(rng *sim.Rand, defaults bool) c09Spec {
+func c09GenSpec(rng *sim.Rand, defaults, defSwitch bool) c09Spec {
 	var s c09Spec
 	np := rng.Range(1, 3)
+	if defSwitch {
+		// prepared for a reload that switches defaultPolicyRef: two or more
+		// policies, rules with and without their own policyRef
+		np = rng.Range(2, 3)
+	}
 	for i := 0; i < np; i++ {
 		p := c09GenPol(rng)
 		p.Limit = rng.Pick(1, 1, 2, 3, 5)
@@ -234,7 +243,7 @@ func c09GenSpec(rng *sim.Rand, defaults bool) c09Spec {
 		}
 		s.Policies = append(s.Policies, p)
 	}
-	if rng.Bool(0.7) {
+	if defSwitch || rng.Bool(0.7) {
 		s.Default = "p0"
 	}
 	nr := rng.Range(1, 4)
@@ -252,6 +261,9 @@ func c09GenSpec(rng *sim.Rand, defaults bool) c09Spec {
 		}
 		ru.Ref = s.Policies[rng.Intn(np)].Name
 		if s.Default != "" && rng.Bool(0.3) {
+			ru.Ref = ""
+		}
+		if defSwitch && i == 0 {
 			ru.Ref = ""
 		}
 		s.Rules = append(s.Rules, ru)
@@ -293,7 +305,8 @@ func c09Gen(rng *sim.Rand, tier string) interface{} {
 	case x < 80:
 		sc.Mode = "filter"
 		defaults := rng.Bool(0.08)
-		sc.Spec = c09GenSpec(rng, defaults)
+		defSwitch := rng.Bool(0.2)
+		sc.Spec = c09GenSpec(rng, defaults, defSwitch)
 		p0 := sc.Spec.Policies[0]
 		P, T := p0.PeriodUs, p0.TimeoutUs
 		if P == 0 {
@@ -320,22 +333,18 @@ func c09Gen(rng *sim.Rand, tier string) interface{} {
 			}
 		})
 		nrl := rng.Pick(0, 0, 0, 1, 1, 2)
-		cur := sc.Spec
-		for i := 0; i < nrl; i++ {
-			rl := c09Reload{GapUs: []int64{0, 1, P / 2, P, P + P/2, 3 * P, T}[rng.Intn(7)]}
-			ns := c09CloneSpec(cur)
-			switch rng.Intn(6) {
+		if defSwitch {
+			nrl = rng.Pick(1, 1, 2)
+		}
+		edit := func(ns *c09Spec, kind int) {
+			switch kind {
 			case 0, 1, 2: // identical
 			case 3: // one policy changes
 				k := rng.Intn(len(ns.Policies))
 				p := ns.Policies[k]
 				switch rng.Intn(3) {
 				case 0:
-					if p.Limit == 0 {
-						p.Limit = 3
-					} else {
-						p.Limit++
-					}
+					p.Limit++
 				case 1:
 					if p.PeriodUs == 0 {
 						p.PeriodUs = 7000
@@ -359,7 +368,7 @@ func c09Gen(rng *sim.Rand, tier string) interface{} {
 						ns.Rules = append(ns.Rules[1:], ns.Rules[0])
 					}
 				}
-			default: // a rule is added in front or at the end / its policyRef or methods change
+			case 5: // a rule is added in front or at the end / its policyRef or methods change
 				if rng.Bool(0.5) {
 					have := map[string]bool{}
 					for _, ru := range ns.Rules {
@@ -385,6 +394,28 @@ func c09Gen(rng *sim.Rand, tier string) interface{} {
 						ns.Rules[k].Methods = []string{"GET", "PUT"}
 					}
 				}
+			default: // defaultPolicyRef switches to another defined policy
+				if ns.Default != "" && len(ns.Policies) > 1 {
+					for _, k := range rng.Perm(len(ns.Policies)) {
+						if ns.Policies[k].Name != ns.Default {
+							ns.Default = ns.Policies[k].Name
+							break
+						}
+					}
+				}
+			}
+		}
+		cur := sc.Spec
+		for i := 0; i < nrl; i++ {
+			rl := c09Reload{GapUs: []int64{0, 1, P / 2, P, P + P/2, 3 * P, T}[rng.Intn(7)]}
+			ns := c09CloneSpec(cur)
+			kind := rng.Intn(8)
+			if defSwitch && i == 0 {
+				kind = 6
+			}
+			edit(&ns, kind)
+			if kind >= 6 && rng.Bool(0.35) {
+				edit(&ns, rng.Range(3, 5)) // ... plus another edit
 			}
 			rl.Spec = ns
 			cur = ns
@@ -1014,6 +1045,7 @@ func c09ExecFilter(e *c09Env, sc *c09Scenario, main *c09TL) {
 	r.Eventf("filter init rules=%d @%v", len(rules), r.Now())
 	var hold chan struct{}
 	reloadCount := 0
+	curDefault := sc.Spec.Default
 
 	for ti := range sc.Tasks {
 		ti := ti
@@ -1207,6 +1239,24 @@ func c09ExecFilter(e *c09Env, sc *c09Scenario, main *c09TL) {
 					close(hold)
 					hold = nil
 					return
+				}
+				if rl.Spec.Default != curDefault {
+					noRefFresh, ownRefKept := false, false
+					for _, nr := range nrules {
+						if nr.rule.Ref == "" && nr.led == nil {
+							noRefFresh = true
+						}
+						if nr.rule.Ref != "" && nr.led != nil {
+							ownRefKept = true
+						}
+					}
+					if noRefFresh {
+						r.Probe("filter.reload_default_policy_switched_rule_without_ref_changed")
+					}
+					if ownRefKept {
+						r.Probe("filter.reload_default_policy_switched_rule_with_ref_kept")
+					}
+					curDefault = rl.Spec.Default
 				}
 				for i, nr := range fresh {
 					st.freshRule = true
@@ -1461,7 +1511,7 @@ func TestVerifC09(t *testing.T) {
 			"timeout horizon = arrival period and the next floor(timeout/period) periods; a rejection while a later period starting within arrival+timeout has a permit is accepted (probe)",
 			"a cancelled waiting request is not a release; its reservation may sit in any period of its horizon",
 			"no request is started on a filter generation while/after its successor inherits from it (C11)",
-			"unchanged rule = same methods, url pattern, policyRef text and identical policy fields; renamed policies / changed defaultPolicyRef / duplicate rules not generated",
+			"unchanged rule = same methods, url pattern, policyRef text and same effective policy (name and fields); a switched defaultPolicyRef makes the rules without own policyRef changed rules (fresh limiter, new policy); renamed policies / duplicate rules not generated",
 			"first matching url rule limits a request",
 			"mqtt: 'less than one packet' uses the largest packet admitted in the period; a rejection may also be justified by byte overshoot carried from earlier periods",
 		},
